@@ -491,3 +491,47 @@ def inline_helpers(module, cls, fn, depth=2, _counter=[0]):
         return res
     fn.body = process(fn.body, depth)
     return fn
+
+
+def expand_locals(fn, expr, depth=4):
+    """``expr`` with every local name that has exactly one plain definition
+    in ``fn`` (``name = <expression>``) replaced by that definition,
+    recursively.  Parameters, loop variables and names bound by unpacking
+    stay as they are.  Used to compare expressions modulo temporaries."""
+    defs = {}
+    multi = set()
+    params = {a.arg for a in fn.args.args + fn.args.kwonlyargs}
+    for n in ast.walk(fn):
+        if isinstance(n, ast.Assign):
+            for t in n.targets:
+                if isinstance(t, ast.Name):
+                    if t.id in defs or len(n.targets) > 1:
+                        multi.add(t.id)
+                    defs[t.id] = n.value
+                else:
+                    for x in ast.walk(t):
+                        if isinstance(x, ast.Name):
+                            multi.add(x.id)
+        elif isinstance(n, (ast.AugAssign, ast.For, ast.comprehension,
+                            ast.With, ast.NamedExpr)):
+            tgt = getattr(n, "target", None)
+            if tgt is not None:
+                for x in ast.walk(tgt):
+                    if isinstance(x, ast.Name):
+                        multi.add(x.id)
+    usable = {k: v for k, v in defs.items()
+              if k not in multi and k not in params}
+    e = copy.deepcopy(expr)
+    for _ in range(depth):
+        changed = [False]
+
+        class T(ast.NodeTransformer):
+            def visit_Name(self, node):
+                if isinstance(node.ctx, ast.Load) and node.id in usable:
+                    changed[0] = True
+                    return copy.deepcopy(usable[node.id])
+                return node
+        e = T().visit(e)
+        if not changed[0]:
+            break
+    return e
